@@ -34,20 +34,31 @@ Theorem lock_order_sound_programs :
 Proof. exact lock_order_sound_prog. Qed.
 Print Assumptions lock_order_sound_programs.
 
+(* FULL statement for today's skeleton: no schedule reaches a deadlock configuration.  The lock-order check does NOT
+   hold of the full skeleton: finding C18/1 - BlockchainRpcTxWatcher.AddWaitForCsvTx calls the CSV callback
+   synchronously when the transaction is already past the CSV, under the swap mutex held by the event handler that
+   registers it; the callback takes the same mutex (self edge swap.SwapStateMachine.mutex -> itself).  Confirmed on the
+   real code by the deadlock harness; restated in Findings/F_C18_1.v. *)
+Definition C18_full : Prop :=
+  forall (ts : list fname) (c : config),
+    reach c18_prog_full (init c18_prog_full ts) c -> ~ deadlocked c.
+
 (* c18_current: the skeleton generated from the code as it is NOW decodes completely, the extractor met no construct
    it cannot flatten soundly (unbalanced branch, return with a lock held, write or call under RLock, goto, ...), and
-   the lock-order check holds with the computed may-acquire sets and ranking.  No exclusion: the three deadlocks that
-   the check and the harness found (findings C18/1-3, Findings/F_C18_*.v) are repaired in the repository. *)
+   the lock-order check holds with the computed may-acquire sets and ranking on the skeleton MINUS exactly the call of
+   the known finding (c18_known: the CallSlot csvPassedCallback inside BlockchainRpcTxWatcher.AddWaitForCsvTx).  Any
+   other cycle or self edge - in particular a callback under a watcher lock, findings C18/2-3, repaired - is outside
+   the exclusion and makes this theorem fail. *)
 Theorem c18_current : c18_skeleton_ok = true.
 Proof. exact c18_skeleton_ok_now. Qed.
 Print Assumptions c18_current.
 
-(* hence: no schedule of any number of threads over today's skeleton reaches a deadlock configuration *)
-Theorem c18_no_deadlock_in_current_skeleton :
+(* proved: no schedule of any number of threads over today's skeleton without that one call reaches a deadlock *)
+Theorem c18_no_deadlock_except_known :
   forall (ts : list fname) (c : config),
     reach c18_prog (init c18_prog ts) c -> ~ deadlocked c.
 Proof. exact c18_current_no_deadlock. Qed.
-Print Assumptions c18_no_deadlock_in_current_skeleton.
+Print Assumptions c18_no_deadlock_except_known.
 
 (* state-machine part of the second sentence, on the generated state tables: from the state in which a maker waits
    for the claim payment, a cancel, a failed cooperative close (coop_close received, spending fails) and an invalid
